@@ -12,6 +12,35 @@ def drain():
     return _verif.drain()
 
 
+# Corpus of past failing inputs, replayed by every run (all tiers, all seeds) before anything is concluded from the random cases: inputs on
+# which the default fit failed at some commit of the library, judged with the ordinary default-fit predicates and certificates. The
+# class they stand for -- problems on which the default QP solver cycles until its iteration limit -- is met by about one random
+# well-scaled problem in 2000, i.e. not reliably by a run of a few hundred. Every entry: values only (exact binary floats as written).
+CORPUS = [
+    # KNOWN_FINDINGS.jsonl, commit 6801003 (found by ./check C04 --seed 5 --case s15:default): OSQP stops at its iteration limit
+    dict(name="osqp-cycling-4x2-lower-bound-out-of-gamut", origin="KNOWN_FINDINGS.jsonl 6801003 (./check C04 --seed 5 --case s15:default)",
+         A=[[5, 4.5], [7.5, 1.75], [3.5, 5], [1.75, 2]], B=[[39.14453125, 69.859375, 17.435546875, 5.7021484375]], kinds=["outside"],
+         lb=[0.0625, 0.0625], ub=[np.inf, np.inf], W=[1.5, 1.5, 0.5, 1.25], K=[0.75], K_kind="scalar", baseline=[0.5, 1, 0.75, 0.75], baseline_kind="vector"),
+    # exactly determined 3x3 system, default bounds, no weights / adaptation / baseline, in-gamut target A @ (0.27, 2.88, 4.6): OSQP stops at
+    # its iteration limit (seeded change C04-m13 shows what happens without the library's retry)
+    dict(name="osqp-cycling-3x3-default-bounds-in-gamut", origin="seeded/C04-m13/demo.py",
+         A=[[3.02, 3.78, 0.78], [4.95, 4.71, 4.65], [2.23, 1.63, 3.24]],
+         B=[(np.array([[3.02, 3.78, 0.78], [4.95, 4.71, 4.65], [2.23, 1.63, 3.24]]) @ np.array([0.27, 2.88, 4.6])).tolist()], kinds=["inside"],
+         lb=[0.0, 0.0, 0.0], ub=[np.inf] * 3, W=None, K=None, K_kind="none", baseline=[0.0], baseline_kind="zero"),
+]
+
+
+def corpus_system(e):
+    """the corpus entry as a system dict like fitlib.gen_wellscaled's"""
+    from systems import apply_K
+    A = np.array(e["A"], dtype=float); K = None if e["K"] is None else np.array(e["K"], dtype=float)
+    base = np.array(e["baseline"], dtype=float); lb = np.array(e["lb"], dtype=float); ub = np.array(e["ub"], dtype=float)
+    Ap, bp = apply_K(A, K, base)
+    return dict(nf=A.shape[0], ns=A.shape[1], A=A, K=K, K_kind=e["K_kind"], baseline=base, baseline_kind=e["baseline_kind"], lb=lb, ub=ub,
+                ub_kind=("finite" if np.all(np.isfinite(ub)) else "inf"), lb_kind=("zero" if not np.any(lb) else "pos"), Ap=Ap, bp=bp,
+                cond=float(np.linalg.cond(Ap)))
+
+
 PRIOR_KINDS = ["coarse", "solver_options", "excitation", "poisson", "other_bounds"]
 
 
@@ -65,7 +94,10 @@ def run(R):
               "excitation), or other bounds -- whose outcome is not judged; the judged fit must satisfy the same predicates "
               "as without a history (a fit does not depend on what was fitted before it). For every row the exact optimum is computed in "
               "Q from the active set suggested by the answer and accepted only by the Lean-verified exact KKT check (theorem "
-              "kkt_global_min => optimal against every in-bound point); otherwise a Frank-Wolfe gap certificate. Non-trivial: a "
+              "kkt_global_min => optimal against every in-bound point); otherwise a Frank-Wolfe gap certificate. Corpus of past failing inputs (cases "
+              "corpus<i>:lsq_linear / corpus<i>:estimator, every run): inputs on which the default fit failed at some commit of the library -- problems on "
+              "which the default QP solver cycles until its iteration limit, met by about one random well-scaled problem in 2000 -- are replayed through "
+              "lsq_linear and ReceptorEstimator.fit with default settings and judged with the same predicates and certificates. Non-trivial: a "
               "bound active at the optimum, or target outside the gamut, or under-determined.")
     kinds = ["inside", "boundary", "vertex", "outside", "outside", "below_baseline"]
     rows = []
@@ -230,6 +262,52 @@ def run(R):
             for i in range(nrow):
                 rows.append(dict(case=c, row=i, kind=kinds_s[i], n=ns, K=S["K"], A=S["A"], baseline=S["baseline"], w=Wrows[i], b=B[i], lb=S["lb"], ub=S["ub"],
                                  xhat=X[i], bpred=Bp[i], mode=mode, status=statuses[i], S=S))
+    # ---- corpus of past failing inputs: the default fit (no options), through lsq_linear and through ReceptorEstimator.fit -----------------
+    for ci, e in enumerate(CORPUS):
+        S = corpus_system(e)
+        nf, ns = S["nf"], S["ns"]
+        B = np.array(e["B"], dtype=float); nrow = len(B)
+        W = None if e["W"] is None else np.array(e["W"], dtype=float)
+        Wrows = np.ones((nrow, nf)) if W is None else np.broadcast_to(W, (nrow, nf))
+        for via in ("lsq_linear", "estimator"):
+            k = "corpus%d:%s" % (ci, via)
+            if not R.want(k):
+                continue
+            drain()
+            if via == "estimator":
+                filt = np.hstack([np.zeros((nf, 1)), S["A"], np.zeros((nf, 1))])
+                src = np.hstack([np.zeros((ns, 1)), np.eye(ns), np.zeros((ns, 1))])
+
+                def impl(*watched):
+                    est = dreye.ReceptorEstimator(filt, domain=1.0, K=(1.0 if S["K"] is None else S["K"]), baseline=S["baseline"],
+                                                  w=(1.0 if W is None else W), sources=src, lb=S["lb"], ub=S["ub"])
+                    return est.fit(B)
+                st, out = call(impl, *[a for a in (B, S["lb"], S["ub"], W, S["K"], S["baseline"], filt, src) if isinstance(a, np.ndarray)])
+            else:
+                def impl(*watched):
+                    return lsq_linear(S["A"], B, lb=S["lb"], ub=S["ub"], W=W, K=S["K"], baseline=S["baseline"], return_pred=True)
+                st, out = call(impl, *[a for a in (S["A"], B, S["lb"], S["ub"], W, S["K"], S["baseline"]) if isinstance(a, np.ndarray)])
+            statuses = [None] * nrow; last = None; solvers = []
+            for ev in drain():
+                if ev["event"] == "solve":
+                    last = ev.get("status"); solvers.append(str(ev.get("solver", "?")))
+                elif ev["event"] == "batch":
+                    for i in range(int(ev["start"]), min(int(ev["stop"]), nrow)):
+                        statuses[i] = last
+            c = dict(k=k, via=via, mode="default", corpus_entry=e["name"], origin=e["origin"], solver_options=None, repeated_targets="none", nf=nf, ns=ns,
+                     A=S["A"], K=S["K"], K_kind=S["K_kind"], baseline=S["baseline"], baseline_kind=S["baseline_kind"], lb=S["lb"], ub=S["ub"], W=W,
+                     W_kind=("none" if W is None else "vector"), B=B, target_kinds=list(e["kinds"]), cond=S["cond"], batch_size=1, n_rows=nrow,
+                     earlier_fit=dict(kind="none"))
+            R.count("corpus:%s:%s:%s" % (e["name"], via, "answer returned" if st == "ok" else "raised " + st))
+            if st != "ok":
+                R.case(c, None)
+                R.failB(dict(c, impl_error=out), "default fit of corpus input %s (%s) raised %s" % (e["name"], e["origin"], out),
+                        "C04:raises:%s:%s" % (st, ",".join(sorted(set(e["kinds"])))))
+                continue
+            X, Bp = np.atleast_2d(np.asarray(out[0])), np.atleast_2d(np.asarray(out[1]))
+            for i in range(nrow):
+                rows.append(dict(case=c, row=i, kind=e["kinds"][i], n=ns, K=S["K"], A=S["A"], baseline=S["baseline"], w=Wrows[i], b=B[i], lb=S["lb"], ub=S["ub"],
+                                 xhat=X[i], bpred=Bp[i], mode="default", status=statuses[i], S=S))
     certify_rows(R, "c4", rows)
     seen_case = set()
     for r in rows:
